@@ -1,19 +1,35 @@
 CFG = {'assumptions': ['the value is acyclic and built from the supported kinds only (no chan / func / unsafe.Pointer anywhere in it); '
-                 'cyclic values make sizeof diverge and are outside the statement',
+                 'cyclic values make sizeof diverge and are outside the statement; a value that shares pointers / slices / maps '
+                 '(a DAG) is measured as its tree unfolding',
                  'amd64 widths: int, uint, uintptr = 8 bytes; headers string 16, slice 24, map 8, pointer 8, interface 16 '
                  '(unsafe.Sizeof constants, compared with the implementation on every run through the one-level exhaustive cases)',
-                 'the total stays below 2^63 (Go int cannot overflow on any value that fits in memory)'],
- 'files': ['size/sizeof.go'],
- 'go': {'size.Of': 'size.Of', 'size.Of/known': 'size.Of', 'size.Stat': 'size.Stat (number in the first line)'},
+                 'the total stays below 2^63 (Go int cannot overflow on any value that fits in memory)',
+                 'full report of Stat: sizes and AvgOf below 2^53 (exact float64 conversion), AvgUnit = 0 or a power of two; the '
+                 'texts of types, field names and map keys are inputs (labels) read off the real value with reflect / fmt; the '
+                 'order of map entries is the order of MapKeys() (random in Go): the text is compared exactly where no listed '
+                 'map has two or more entries, as the sorted list of lines where every listed map is listed completely'],
+ 'files': ['size/sizeof.go', 'typehelper/toslice.go'],
+ 'go': {'size.Of': 'size.Of', 'size.Of/known': 'size.Of', 'size.Stat': 'size.Stat (number in the first line)',
+        'size.Stat/text': 'size.Stat (the whole text, with and without Opt{AvgOf, AvgUnit})',
+        'size.Stat/sorted': 'size.Stat (the lines, sorted)',
+        'size.Stat/opts': 'size.Stat (variadic options: Opt / int / *Opt)',
+        'typehelper.ToSlice': 'typehelper.ToSlice (result serialized back to a value text)',
+        'typehelper.ToSlice+size.Of': 'size.Of(typehelper.ToSlice(v))'},
  'rule': 'a case is a Go value tree written in val syntax; the executor BUILDS the value with reflect (StructOf/SliceOf/MapOf/'
          'ArrayOf/PtrTo, interface{} and method-carrying interface slots, four hand-declared types with unexported fields incl. '
-         'the recursive struct of TestSizeStat) and calls size.Of and size.Stat(v, depth in {-1,0,1,2,10}, maxItem in {0,1,3,100}); '
-         'cases = nil + 16 scalar kinds + strings of length 0..40; all 18 one-level container shapes x 17 leaf types; maps keyed '
-         'by every leaf type; all 18x18 two-level compositions; random types of depth <= 5 with random values (nil / empty / '
-         'non-empty containers, distinct map keys, every scalar kind incl. uint, uintptr, complex). A case is non-trivial when a '
-         'container is nested in a container (depth >= 2); shape key = depth / set of container kinds / set of nil-or-empty '
-         'container kinds / has uint|uintptr (/ Stat arguments); distinct = distinct (op,args)',
+         'the recursive struct of TestSizeStat; slices are windows of larger arrays (cap > len), strings substrings; nodes with the '
+         'same sharing id are the SAME pointer / slice / map) and calls size.Of, size.Stat(v, depth, maxItem) (first line; whole '
+         'report with depth in {-7,-1,0..4,10}, maxItem in {-1,0..3,5,100}, AvgOf / AvgUnit in 1 case of 3), typehelper.ToSlice and '
+         'size.Of(ToSlice(v)); cases = nil + 16 scalar kinds + strings of length 0..40; all 18 one-level container shapes x 17 leaf '
+         'types; maps keyed by every leaf type; all 18x18 two-level compositions; 21 sharing patterns x 22 element types; arrays of '
+         'non-scalars in slices / arrays; ToSlice on slices of length 0..6 and on non-slices; random types of depth <= 5 with random '
+         'values (nil / empty / non-empty containers, distinct map keys, every scalar kind incl. uint, uintptr, complex, shared nodes). '
+         'A case is non-trivial when a container is nested in a container (depth >= 2; report: >= 3 lines or an average; ToSlice: >= 2 '
+         'elements); shape key = depth / set of container kinds / set of nil-or-empty container kinds / has uint|uintptr / shared '
+         '(/ Stat arguments, what the limits cut, text or sorted / slice length and element kind); distinct = distinct (op,args)',
  'explanation': 'sizeof (model of the two switches, left-to-right running sum, panic as None) is proved equal to the sum over the '
                 'flattened lists of scalar leaves and container nodes for every supported value tree of any size and depth; Of(nil)=0; '
-                'the number in the first line of Stat equals Of; the pre-fix scalar list is refuted on VScalar KUint.',
+                'the number in the first line of Stat equals Of; the pre-fix scalar list is refuted on VScalar KUint. Widening: the '
+                'whole report of Stat (recursion on depth, maxItem exits, prefixes, indentation) is proved equal to the rendering of the '
+                'visible entries of the pre-order listing; ToSlice returns the elements in order, boxed; sharing is counted per path.',
  'shrink_s': 20}
